@@ -81,6 +81,7 @@ structure Sim (c : Conn) (s : Spec) : Prop where
   dbapi : c.hasDbapi = true
   reconn : c.canReconnect = true
   nofault : c.db.faults = []
+  nolistener : c.db.listener = .none
   noctx : c.ctxMgr = none
   noauto : c.db.raw.autocommit = false
   kindsLen : s.kinds.length = c.txns.length
@@ -143,35 +144,9 @@ theorem dbapiCall_nofault (c : Conn) (p : FPoint) (f : DB → DB) (h : c.db.faul
     c.dbapiCall p f = ({ c with db := f c.db }, .ok) := by
   simp [Conn.dbapiCall, takeFault_nil _ _ h]
 
-/-- what `execute` does in a simulated (open, fault-free, well-nested) state with a
-    transaction in progress: just the database effect -/
-theorem execute_sim {c : Conn} {s : Spec} (h : Sim c s) {t : Nat} (ht : s.root = some t) (q : Sql) :
-    c.execute q =
-      match c.db.apply q with
-      | (some db, _) => ({ c with db := db }, .ok)
-      | (none, r) => (c, r) := by
-  have htr : c.transaction = some t := by rw [h.root, ht]
-  have hact : c.act t = true := (h.rootOk t ht).2.2
-  have hstale : c.stale = false := by
-    have hn : (match c.nested with | some n => !c.act n | none => false) = false := by
-      cases hcn : c.nested with
-      | none => rfl
-      | some n => simp [chain_nested_active h.chain n hcn]
-    simp [Conn.stale, htr, hact]
-    exact hn
-  have hctx : c.ctxRaises = false := by simp [Conn.ctxRaises, h.noctx]
-  have hin : c.inTransaction = true := by simp [Conn.inTransaction, htr, hact]
-  have hcur : c.dbapiCall .cursor id = (c, .ok) := by
-    rw [dbapiCall_nofault _ _ _ h.nofault]; rfl
-  simp only [Conn.execute, Conn.connProp, h.dbapi, if_true, andThen_ok, hcur, Conn.execChecked,
-    hstale, hctx, Bool.false_eq_true, if_false, Conn.autobegin, htr, Option.isNone_some,
-    Conn.runSql, takeFault_nil _ _ h.nofault]
-  cases hq : c.db.apply q with
-  | mk o r =>
-    cases o with
-    | some db => rfl
-    | none => simp [Conn.dbapiError, hin]
-
+theorem dbapiError_err_plain (c : Conn) (hl : c.db.listener = .none) (hin : c.inTransaction = true) :
+    c.dbapiError .err = (c, .operational) := by
+  simp [Conn.dbapiError, hl, Conn.plainError, hin]
 
 /-! ### frame lemmas -/
 
